@@ -371,6 +371,23 @@ def work_docs(job):
                 if missing:
                     r.violate('dropped:document:%s' % D.FMT_NAME[fmt], '%d of %d body words of a structured document are missing from the %s output (first: %s)' % (len(missing), len(want), D.FMT_NAME[fmt], missing[0].decode()),
                               case, core.show(src, 700))
+            if i % 5 == 0:
+                # parse once, export several times (mmd_engine_parse_string + mmd_engine_export_token_tree): every export is as clean as the first
+                hist = []
+                ok = True
+                for sub, fmt, args in ((0, 0, [src]), (12, 0, [b'']), (14, F['html'], [b'']), (14, F['latex'], [b'']), (14, F['html'], [b''])):
+                    rq = D.req_to_json('asan', 'ENGINE', fmt, D.EXT_CLI, 0, 0 | (sub << 4), args)
+                    hist.append(rq)
+                    rep = s.call('asan', *D.req_from_json(rq), history=hist[:-1], crash_is_violation=False)
+                    r.evaluations += 1
+                    if rep is None:
+                        ok = False
+                        break
+                    if sub == 14:
+                        r.stats['repeated_exports_judged'] += 1
+                        judge_reply(r, rep, src, fmt, D.EXT_CLI, dict(requests=list(hist)), 'export-%d-of-one-tree' % (len(hist) - 2))
+                if ok:
+                    s.call('asan', 'ENGINE', 0, 0, 0, 0 | (9 << 4), [b''], crash_is_violation=False)
             r.distinct.add(core.h64('doc', src))
     return r
 
